@@ -282,6 +282,9 @@ Definition py_kwunpack (v : val) : res (list (string * val)) :=
   | _ => Err TypeErr
   end.
 
+Definition py_items (v : val) : res (list (val * val)) :=
+  match v with VDict kv => Ok kv | _ => Err TypeErr end.
+
 (** repr / str *)
 Definition z_to_string (z : Z) : string := NilZero.string_of_int (Z.to_int z).
 
@@ -558,7 +561,7 @@ Definition py_is_all (v : val) : bool := match v with VFun n => String.eqb n "al
 Definition py_prims : prims := {|
   p_unop := py_unop; p_binop := py_binop; p_cmp := py_cmp; p_truth := py_truth;
   p_getattr := py_getattr; p_getitem := py_getitem; p_call := py_call; p_iter := py_iter;
-  p_format := py_format; p_mkdict := py_mkdict; p_kwunpack := py_kwunpack;
+  p_format := py_format; p_mkdict := py_mkdict; p_kwunpack := py_kwunpack; p_items := py_items; p_same_key := val_eqb;
   p_callable := py_callable; p_is_all := py_is_all; p_builtin := py_builtin |}.
 
 (** what [icontract._represent._representable] lets through in this domain *)
